@@ -10,6 +10,7 @@ import (
 	"os"
 	"os/exec"
 	"sort"
+	"strconv"
 	"strings"
 	"sync"
 	"time"
@@ -374,6 +375,34 @@ func Main() {
 		os.Exit(RunCheck(os.Args[2], os.Args[3]))
 	case "replay":
 		os.Exit(ReplayFile(os.Args[2]))
+	case "stress": // debug: stress <id> <tier> <family> <case json> <n> <parallel>: replays one case n times
+		c := registry[os.Args[2]]
+		n, _ := strconv.Atoi(os.Args[6])
+		par, _ := strconv.Atoi(os.Args[7])
+		for _, f := range c.Families(os.Args[3]) {
+			if f.Name != os.Args[4] || f.Replay == nil {
+				continue
+			}
+			var mu sync.Mutex
+			bad := map[string]int{}
+			var wg sync.WaitGroup
+			sem := make(chan struct{}, par)
+			for i := 0; i < n; i++ {
+				wg.Add(1)
+				sem <- struct{}{}
+				go func() {
+					defer func() { <-sem; wg.Done() }()
+					if m := f.Replay(json.RawMessage(os.Args[5])); m != "" {
+						mu.Lock()
+						bad[m]++
+						mu.Unlock()
+					}
+				}()
+			}
+			wg.Wait()
+			fmt.Println("runs:", n, "failures:", bad)
+		}
+		os.Exit(0)
 	}
 	os.Exit(2)
 }
